@@ -267,3 +267,52 @@ func Monitors(ms ...Monitor) Monitor {
 		return out
 	}
 }
+
+// MonitorReserved is the pod-level clause of C09 checked on the implementation (Lean: Galaxy.Plugin.reservation_kept,
+// reserved_never_in_annotation, unconfigured_never_in_annotation): every reservation in force has its record in memory
+// and its object in the store, unchanged, and no live pod's binding annotation names a reserved or de-configured address.
+func MonitorReserved(w *World, step int) []hx.Violation {
+	var out []hx.Violation
+	kind := w.LastOp.Kind
+	byIP := map[uint32]IPAMRec{}
+	for _, r := range w.IPAMDump() {
+		byIP[r.IP] = r
+	}
+	for ip, key := range w.Admin {
+		r, ok := byIP[ip]
+		if !ok || r.Free || r.Key != key || !r.Reserved {
+			out = append(out, hx.Violation{Signature: "reservation-lost-in-memory:by=" + kind,
+				What: fmt.Sprintf("step %d (%s): the administrator's reservation of %s (%s) is no longer in the allocated table: %+v",
+					step, w.LastOp.Line, IPStr(ip), key, r)})
+		}
+		obj, err := w.Galaxy.GalaxyV1alpha1().FloatingIPs().Get(context.TODO(), IPStr(ip), metav1.GetOptions{})
+		if err != nil || obj.Spec.Key != key {
+			out = append(out, hx.Violation{Signature: "reservation-lost-in-store:by=" + kind,
+				What: fmt.Sprintf("step %d (%s): the labelled object of the reservation of %s (%s) is gone or re-keyed",
+					step, w.LastOp.Line, IPStr(ip), key)})
+		}
+	}
+	for _, lp := range w.LiveBound() {
+		for _, ip := range lp.IPs {
+			voided := w.Voided[string(lp.Pod.UID)+"/"+strconv.FormatUint(uint64(ip), 10)]
+			// (a pod whose address left the configuration while it held it is outside the property's scope: the address
+			// may be configured again later, free, and then be reserved)
+			if _, res := w.Admin[ip]; res && !voided {
+				out = append(out, hx.Violation{Signature: "reserved-ip-in-annotation:by=" + kind,
+					What: fmt.Sprintf("step %d (%s): pod %s/%s holds the reserved address %s", step, w.LastOp.Line,
+						lp.Pod.Namespace, lp.Pod.Name, IPStr(ip))})
+			}
+			if !ConfHas(w.Pools, ip) && !voided {
+				out = append(out, hx.Violation{Signature: "unconfigured-ip-in-annotation:by=" + kind,
+					What: fmt.Sprintf("step %d (%s): pod %s/%s holds %s, which the configuration does not contain", step,
+						w.LastOp.Line, lp.Pod.Namespace, lp.Pod.Name, IPStr(ip))})
+			}
+		}
+	}
+	return out
+}
+
+// WithReserved adds the reservation monitor to a property's monitor.
+func WithReserved(m Monitor) Monitor {
+	return func(w *World, step int) []hx.Violation { return append(m(w, step), MonitorReserved(w, step)...) }
+}
